@@ -190,6 +190,17 @@ def roundtrip(m):
     return True, ""
 
 
+def failing_prints():
+    """models the reader produces whose printing fails: they hold an integer literal that Python cannot show in decimal
+    (int.__repr__ raises beyond 4300 digits).  The failure is CPython's; what is judged is that it leaves no trace."""
+    hy = pc.hy_mod()
+    big = "0x" + "f" * 4000
+    out = []
+    for src in ["(f %s)" % big, big, "[a {b %s}]" % big, 'f"{%s}"' % big, "'(x #(%s))" % big]:
+        out.append((src[:20] + "...", hy.read(src)))
+    return out
+
+
 def gen_models(chk, n):
     """models read from generated Hy texts over every syntax form, plus recombinations of their parts"""
     hy = pc.hy_mod()
@@ -275,9 +286,19 @@ def run(chk):
     t0 = time.time()
     outs = pc.run_chunks(chunks, "c25")
     chk.extra["model_eval_s"] = round(time.time() - t0, 1)
+    failing = failing_prints()
+    n_failed_prints = 0
     for ch, res in zip(index, outs):
         for i, (mt, mr) in zip(ch, res):
             (src, m), rec = cases[i], impl[i]
+            if i % 40 == 0:
+                # a print that fails part-way inside a model; the round trips that follow must not notice
+                fsrc, fm = failing[(i // 40) % len(failing)]
+                try:
+                    hy.repr(fm)
+                    chk.count("failing-print-returned")
+                except ValueError:
+                    n_failed_prints += 1
             chk.count("top:" + type(m).__name__)
             chk.case(rec["text"], nontrivial=True,
                      sample={"source": src[:100], "repr": rec["text"][:100]} if i % 83 == 7 else None)
@@ -299,7 +320,7 @@ def run(chk):
                         rep_ok = False
                 for c in classes:
                     chk.count("known-class:" + c)
-                chk.fail("roundtrip", {"source": src[:300], "repr": rec["text"][:300], "classes": classes,
-                                       "repaired_roundtrips": rep_ok},
+                chk.fail("roundtrip", {"source": src[:300], "repr": hy.repr(m)[:300], "classes": classes,
+                                       "repaired_roundtrips": rep_ok, "failed_prints_before": n_failed_prints},
                          observed, "a model equal to the original at every node, printing as the same text",
                          "PYTHONPATH=%s python: m = hy.read(source); hy.eval(hy.read(hy.repr(m)))" % vlib.REPO)
